@@ -133,6 +133,52 @@ fn main() {
             _ => {}
         }
     }
+    // --- the text front-end's entry points: solve_no_metadata / solve / solve_with_config /
+    // solve_with_config_analysis / direct library calls on the same constraints and guesses
+    let mut texts = 0usize;
+    for _ in 0..(n / 4).max(20) {
+        let gp = ezpz_verif_harness::textgen::gen_valid(&mut rng);
+        let text = ezpz_verif_harness::textgen::text_of(&gp, &mut rng);
+        let Ok(problem) = <kcl_ezpz::textual::Problem as std::str::FromStr>::from_str(&text) else { continue };
+        let Ok(cs) = problem.to_constraint_system() else { continue };
+        texts += 1;
+        let fp_outcome = |o: &kcl_ezpz::textual::Outcome| -> String {
+            let bits = |v: f64| v.to_bits().to_string();
+            let mut s = format!("U{:?} I{} P{} NV{} NE{} W{}", o.unsatisfied, o.iterations, o.priority_solved, o.num_vars, o.num_eqs,
+                ezpz_verif_harness::codec::enc_warnings(&o.warnings));
+            for (l, p) in &o.points { s += &format!(" {l}=({},{})", bits(p.x), bits(p.y)); }
+            for (l, c) in &o.circles { s += &format!(" {l}=({},{},{})", bits(c.center.x), bits(c.center.y), bits(c.radius)); }
+            for (l, a) in &o.arcs { s += &format!(" {l}=({},{},{},{},{},{})", bits(a.center.x), bits(a.center.y), bits(a.a.x), bits(a.a.y), bits(a.b.x), bits(a.b.y)); }
+            s
+        };
+        let show = |r: &Result<kcl_ezpz::textual::Outcome, FailureOutcome>| match r {
+            Ok(o) => fp_outcome(o),
+            Err(f) => format!("ERR {}", ezpz_verif_harness::trace::show_err(f)),
+        };
+        let a = show(&cs.solve());
+        let a2 = show(&cs.solve());
+        let b = show(&cs.solve_with_config(Config::default()));
+        let c = match cs.solve_with_config_analysis(Config::default()) { Ok(oa) => fp_outcome(&oa.outcome), Err(f) => format!("ERR {}", ezpz_verif_harness::trace::show_err(&f)) };
+        let lib = solve(&cs.constraints, cs.verif_initial_guesses(), Config::default());
+        let nm = cs.solve_no_metadata(Config::default());
+        fnv(&mut digest, &a);
+        let mut bad = |what: String, sig: &str| {
+            out.push(Violation { property: "C10", what: format!("{what}; text: {text:?}"), signature: sig.into(), system: None, extra: String::new() })
+        };
+        if a != a2 { bad(format!("two calls of the text front-end's solve differ: {a} vs {a2}"), "not-deterministic"); }
+        if a != b { bad(format!("solve() and solve_with_config(default) differ: {a} vs {b}"), "text-entry-points-differ"); }
+        // with analysis: the same outcome unless the analysis itself failed (F10 shape excluded: one level here)
+        if a != c && !(c.starts_with("ERR") && !a.starts_with("ERR")) {
+            bad(format!("solve() and solve_with_config_analysis() differ: {a} vs {c}"), "text-entry-points-differ");
+        }
+        if describe(&lib) != describe(&nm) { bad("solve_no_metadata differs from the library's solve on the same constraints and guesses".into(), "text-entry-points-differ"); }
+        // the labelled outcome carries the library's numbers
+        if let (Ok(o), Ok(l)) = (&cs.solve(), &lib) {
+            if o.iterations != l.iterations() || o.unsatisfied != l.unsatisfied() || o.priority_solved != l.priority_solved() {
+                bad("text front-end's outcome disagrees with the library's outcome on iterations / unsatisfied / priority".into(), "text-entry-points-differ");
+            }
+        }
+    }
     let mut seen = std::collections::BTreeSet::new();
     for v in &out {
         if seen.insert(v.signature.clone()) {
@@ -141,7 +187,7 @@ fn main() {
     }
     println!("DIGEST {digest:016x}");
     println!(
-        "STATS {{\"systems\": {systems}, \"both_ok\": {both_ok}, \"both_err\": {plain_err}, \"analysis_only_err\": {analysis_only_err}, \"repeated_calls\": {repeats}, \"digest\": \"{digest:016x}\", \"violations\": {}}}",
+        "STATS {{\"systems\": {systems}, \"both_ok\": {both_ok}, \"both_err\": {plain_err}, \"analysis_only_err\": {analysis_only_err}, \"repeated_calls\": {repeats}, \"texts\": {texts}, \"digest\": \"{digest:016x}\", \"violations\": {}}}",
         out.len()
     );
 }
